@@ -783,10 +783,12 @@ Definition oz_eqb (a b : option (list Z)) : bool :=
   match a, b with None, None => true | Some x, Some y => list_eqb x y | _, _ => false end.
 Definition rtc_enc_ok (c : Z * option (list Z) * list Z * list Z) : bool :=
   match c with (o, rt, bytes, idx) =>
-    list_eqb (make_rtc o rt) bytes && (rtc_origin bytes =? (match rt with Some _ => o | None => 0 end))
-    && oz_eqb (rtc_rt bytes) (match rt with Some (r0 :: r) => Some (reset_flags r0 :: r) | _ => None end)
-    && list_eqb (rtc_index bytes) idx end.
-Definition rtc_dec_ok (c : list Z * option (list Z * list Z)) : bool := match c with (d, e) => ob_eqb (unpack_rtc d) e end.
+    list_eqb (pack_rtc (make_rtc o rt)) bytes && (rtc_origin (make_rtc o rt) =? (match rt with Some _ => o | None => 0 end))
+    && oz_eqb (rtc_rt (make_rtc o rt)) (match rt with Some (r0 :: r) => Some (reset_flags r0 :: r) | _ => None end)
+    && list_eqb (rtc_index (make_rtc o rt)) idx end.
+Definition rtc_dec_ok (c : list Z * option (list Z * list Z) * list Z) : bool :=
+  match c with (d, e, again) =>
+    ob_eqb (unpack_rtc d) e && match e with Some (p, _) => list_eqb (pack_rtc p) again | None => true end end.
 (* strict: unregistered route type, the framing is the whole decoder; otherwise the type-specific checks
    may refuse more, but never accept something the framing refuses or store other bytes *)
 Definition evpn_dec_ok (c : bool * list Z * option (list Z * list Z)) : bool :=
@@ -879,10 +881,44 @@ def structured_pass(run, rng, quick, conf_nlris):
                      [rng.choice([0, 1, 31, 32, 33, 64, 95, 96, 97, 255])] + good[1:] + [rng.getrandbits(8) for _ in range(rng.choice([0, 12]))],
                      good[:5] + [rng.getrandbits(8)] + good[6:], [rng.getrandbits(8) for _ in range(rng.randint(0, 16))]):
             r, dec = unpack(AFI.ipv4, SAFI.rtc, data)
-            rtc_dec.append((data, r))
+            rtc_dec.append((data, r, list(bytes(dec.pack_nlri(neg))) if dec is not None else []))
         r, dec = unpack(AFI.ipv4, SAFI.rtc, good)
         if dec is None or not (dec == o) or hash(dec) != hash(o) or str(dec) != str(o) or dec.json() != o.json() or bytes(dec.pack_nlri(neg)) != bytes(good):
             problems.append(('rtc-roundtrip', 'decode(encode(rtc)) != rtc', {'bytes': bytes(good).hex()}))
+    # partial prefixes (RFC 4684): every legal length, alone / first / last in the field, bits beyond the prefix set or clear
+    for length in [0, 32, 33, 39, 40, 41, 47, 48, 56, 63, 64, 65, 72, 80, 88, 95, 96] + list(range(32, 97) if not quick else []):
+        for position in ('alone', 'first', 'last', 'truncated'):
+            for _ in range(2):
+                size = (length + 7) // 8
+                prefix = [rng.getrandbits(8) for _ in range(size)]
+                if size >= 5 and rng.random() < 0.7:
+                    prefix[4] &= 0x3F  # the two flag bits of the route target type octet clear, as ExaBGP writes it
+                if length % 8 and rng.random() < 0.5 and size:
+                    prefix[-1] &= (0xFF << (8 - length % 8)) & 0xFF
+                one = [length] + prefix
+                other = [96] + [rng.getrandbits(8) for _ in range(4)] + [0, 2] + [rng.getrandbits(8) for _ in range(6)]
+                data = {'alone': one, 'first': one + other, 'last': one, 'truncated': one[: rng.randint(1, len(one))]}[position]
+                if position == 'last':
+                    # the decoder is handed what follows the previous NLRI: decode `other` first and continue on its rest
+                    r0, _d0 = unpack(AFI.ipv4, SAFI.rtc, other + one)
+                    if r0 is None or r0[1] != one:
+                        problems.append(('rtc-field-walk', 'a full RTC NLRI did not leave exactly the following NLRI', {'bytes': bytes(other + one).hex()}))
+                r, dec = unpack(AFI.ipv4, SAFI.rtc, data)
+                again = list(bytes(dec.pack_nlri(neg))) if dec is not None else []
+                rtc_dec.append((data, r, again))
+                if position != 'truncated':
+                    case = {'length_bits': length, 'position': position, 'bytes': bytes(data).hex()}
+                    if dec is None:
+                        problems.append(('rtc-partial-refused', 'an RTC NLRI with a legal prefix length is refused', case))
+                        continue
+                    if len(data) - len(r[1]) != 1 + size:
+                        problems.append(('rtc-partial-consumed', 'an RTC NLRI did not take 1 + ceil(length/8) octets', dict(case, consumed=len(data) - len(r[1]))))
+                    flags_clear = size < 5 or prefix[4] < 64
+                    if flags_clear and again != one:
+                        problems.append(('rtc-partial-reencode', 'encode(decode(bytes)) != the octets consumed', dict(case, reencoded=bytes(again).hex())))
+                    r2, dec2 = unpack(AFI.ipv4, SAFI.rtc, again)
+                    if dec2 is None or not (dec2 == dec) or hash(dec2) != hash(dec) or dec2.index() != dec.index() or str(dec2) != str(dec) or dec2.json() != dec.json():
+                        problems.append(('rtc-partial-roundtrip', 'decode(encode(x)) != x for a decoded partial RTC NLRI', dict(case, reencoded=bytes(again).hex())))
     # ---- EVPN framing
     evpn_dec = []
     registered = set(EVPN.registered_evpn)
@@ -947,8 +983,10 @@ def structured_pass(run, rng, quick, conf_nlris):
         if kind == 'vpls_enc':
             (rd, ve, off, size, base), b, idx = c
             return f'(mkV {zlist(rd)} {ve} {off} {size} {base}, {zlist(b)}, {zlist(idx)})'
-        if kind in ('vpls_dec', 'rtc_dec'):
+        if kind == 'vpls_dec':
             return f'({zlist(c[0])}, {_coq_ob(c[1])})'
+        if kind == 'rtc_dec':
+            return f'({zlist(c[0])}, {_coq_ob(c[1])}, {zlist(c[2])})'
         if kind == 'rtc_enc':
             return f'({c[0]}, {coq_opt(c[1])}, {zlist(c[2])}, {zlist(c[3])})'
         if kind == 'evpn_dec':
@@ -962,7 +1000,7 @@ def structured_pass(run, rng, quick, conf_nlris):
 
     groups = [
         ('vpls_enc', 'vpls * list Z * list Z', 'vpls_enc_ok', vpls_enc), ('vpls_dec', 'list Z * option (list Z * list Z)', 'vpls_dec_ok', vpls_dec),
-        ('rtc_enc', 'Z * option (list Z) * list Z * list Z', 'rtc_enc_ok', rtc_enc), ('rtc_dec', 'list Z * option (list Z * list Z)', 'rtc_dec_ok', rtc_dec),
+        ('rtc_enc', 'Z * option (list Z) * list Z * list Z', 'rtc_enc_ok', rtc_enc), ('rtc_dec', 'list Z * option (list Z * list Z) * list Z', 'rtc_dec_ok', rtc_dec),
         ('evpn_dec', 'bool * list Z * option (list Z * list Z)', 'evpn_dec_ok', evpn_dec),
         ('nums_dec', 'nat * list Z * option (list Z)', 'nums_dec_ok', nums_dec),
         ('agg_dec', 'bool * list Z * option (Z * list Z)', 'agg_dec_ok', agg_dec), ('orig_dec', 'list Z * option (list Z)', 'orig_dec_ok', orig_dec),
